@@ -1600,8 +1600,8 @@ struct const_subarray : array_types<T, D, ElementPtr, Layout> {
 	constexpr auto addressof_aux_() const {return ptr(this->base_, this->layout());}
 
  public:
-	constexpr auto addressof()     && ->       ptr { return addressof_aux_(); }
-	constexpr auto addressof()      & ->       ptr { return addressof_aux_(); }
+	constexpr auto addressof()     && -> const_ptr { return addressof_aux_(); }  // a read-only view never hands out a pointer to a mutable view; subarray adds the mutable overloads
+	constexpr auto addressof()      & -> const_ptr { return addressof_aux_(); }
 	constexpr auto addressof() const& -> const_ptr { return addressof_aux_(); }
 
 	// NOLINTBEGIN(google-runtime-operator) //NOSONAR
@@ -1959,10 +1959,15 @@ class subarray : public const_subarray<T, D, ElementPtr, Layout> {
 	#endif
 
 	using const_subarray<T, D, ElementPtr, Layout>::operator&;
+
+	constexpr auto addressof()     && { return subarray_ptr<T, D, ElementPtr, Layout, false>(this->base_, this->layout()); }
+	constexpr auto addressof()      & { return subarray_ptr<T, D, ElementPtr, Layout, false>(this->base_, this->layout()); }
+	constexpr auto addressof() const& { return const_subarray_ptr<T, D, ElementPtr, Layout>{this->base_, this->layout()}; }
 	// NOLINTNEXTLINE(runtime/operator)
 	// BOOST_MULTI_HD constexpr auto operator&() const& {return subarray_ptr<const_subarray, Layout>{this->base_, this->layout()};}  // NOLINT(google-runtime-operator) extend semantics  //NOSONAR
 
 	using const_subarray<T, D, ElementPtr, Layout>::const_subarray;
+
 
 	using const_subarray<T, D, ElementPtr, Layout>::begin;
 	constexpr auto begin() && { return this->begin_aux_(); }
